@@ -506,6 +506,10 @@ class LibMixin:
                     val = _fresh_of_sort(h.field_sorts.get(name, h.field_sorts.get("*")), f"{h.name or h.cls[1]}.{name}")
                     h.fields[name] = val
                     return [(st, val)]
+                if name in ("items", "keys", "values") and "Mapping" in [c_[1] for c_ in load.mro(h.cls[0], h.cls[1])]:
+                    # collections.abc.Mapping mixin methods of a repo class: views built from the
+                    # class's own __iter__ / __getitem__ (trusted data model)
+                    return [(st, VBuiltin(f"MappingMixin.{name}", v))]
                 return [self.raised(st, "AttributeError", f"{h.cls[1]} has no attribute {name}")]
             return [(st, VBuiltin(f"{type(h).__name__}.{name}", v))]
         if isinstance(v, VStr):
